@@ -5,6 +5,46 @@ ROOT = os.path.dirname(os.path.dirname(os.path.abspath(__file__)))
 ALL = ["C%02d" % i for i in range(1, 19)]
 
 CHECKS = {
+ "C02": dict(cat="model_checking", engine="E2",
+   technique="explicit-state exploration (stateright BFS) of a layout reference model + conformance replay of every trace in P.Sigma^<=k on the real build_str",
+   text="The layout reference model (three location counters, segment switching, .org, item sizes, padding, zero fill, label values, ram_filling) is explored breadth-first with state deduplication to depth N1; every trace of (state cover) x (all enabled action sequences of length <= k) is rendered to source, built by the real assembler and compared in full (both images, ram_filling, label table, Ok/Err) with the model's prediction, per device. Chow-style: exposes every fault of an implementation with up to k-1 more states than the model, within the action alphabet.",
+   note="Trusted: the layout model and the ISA reference for instruction bytes; stateright 0.31 BFS run single-threaded (deterministic shortest access traces). Bounds: N1 = 4 / 5, k = 2 / 3; devices none, ATmega48, ATtiny20 (+ATtiny13, ATmega2560 thorough). Corners the statement does not pin (.org into an earlier gap, .dseg .org below RAM start, RAM extent after a trailing .org) are not generated or accepted either way.",
+   ref="3/C02"),
+ "C03": dict(cat="exploration", engine="E1",
+   technique="bounded-exhaustive enumeration of (instruction kind x target form x placement x every distance across both range limits x filler sequence) on the real assembler, decoded by the independent decoder",
+   text="36 instruction kinds x 4 ways of naming the target x 4 base placements x every displacement in windows across and beyond both limits, with all 1555 filler sequences of <=4 items (one/two-word items, odd data, .org gaps) rotated through; the build must succeed iff the displacement fits, and the emitted word must decode to the same condition and a displacement that reaches exactly the model address of the target.",
+   note="Trusted: isa::decode/canonical and the generator's address bookkeeping. Default device only (wrap-around jumps are an AVRASM extension the statement does not claim).",
+   ref="3/C03"),
+ "C04": dict(cat="exploration", engine="E1",
+   technique="bounded-exhaustive enumeration of illegal operand tuples (register classes, numeric windows beyond both range ends, operand-kind and operand-count confusions) against the independent ISA encoder's legality verdict",
+   text="For every mnemonic: each register position x r0..r31, each numeric field x a window well beyond both ends of its legal range plus extremes up to +-(2^63-1), each position x each operand kind, operand counts 0..3, on no device, the reduced core and a Tiny1x device, one case per build. If the reference can encode it the result must be exactly those bytes; if not, the build must not succeed.",
+   note="Trusted: isa::encode's legality (self-checked against the decoder). Leniency: ld/ldd/st/std written with the sibling's addressing form are accepted iff the bytes are the sibling's encoding of exactly that operand. A caught panic counts as rejected here and is reported by C16.",
+   ref="3/C04"),
+ "C05": dict(cat="exploration", engine="E1",
+   technique="bounded-exhaustive enumeration of expression trees (all operator pairs, both groupings, unary placements, boundary grid, literal spellings) evaluated by the real assembler against a checked-i64 reference evaluator",
+   text="All trees with <=2 binary operators (18x18 ordered pairs, both groupings, rendered with minimal parentheses so that precedence and associativity are decided by the tool's parser), unary placements, every operator on a 25x25 boundary grid up to i64 min/max, every function, 33 values x 7 radix spellings, symbols and labels; thorough adds all 3-operator trees. Each is observed through .dq as a 64-bit value or a build failure.",
+   note="Trusted: exprm::eval (checked against Rust's operators) and exprm::render (render->parse identity with an independent parser). Corners the statement does not pin (shift counts outside 0..63, >> of negatives, exp2 outside 0..62, MIN % -1) accept any listed value or an error, never a panic.",
+   ref="3/C05"),
+ "C06": dict(cat="exploration", engine="E1",
+   technique="bounded-exhaustive enumeration of operand lists and directive sequences on the real assembler against a reference emitter",
+   text="4 directives x every operand list of length <=3 (4) over a 16-symbol alphabet (values at and beyond both ends of each width, symbols, forward label, expression, empty/ASCII/punctuated/non-ASCII strings) x {cseg, eseg, dseg}, plus all sequences of <=3 (4) data lines and reservations per segment; expected bytes (order, little-endian, width, one pad byte per odd .db line in flash only) or a build failure come from a reference emitter.",
+   note="Trusted: the 60-line reference emitter in c06.rs. An empty operand list is not generated (not pinned).",
+   ref="3/C06"),
+ "C07": dict(cat="exploration", engine="E1",
+   technique="bounded-exhaustive enumeration of image lengths (all small lengths, all lengths around every 64 KiB boundary up to the largest flash) written by the real writers and decoded by an independent strict Intel HEX reader",
+   text="Every image length 0..600 and every length within +-17 of each 64 KiB boundary up to the largest flash in the device table, three content patterns (a position hash exposes any misplaced byte), both writers, the other image empty and non-empty; each file must consist solely of well-formed 00/01/02/04 records with valid checksums, one EOF last, and decode to exactly the image.",
+   note="Trusted: ihex::decode (self-checked on the vectors pinned in the repository's writer tests and on seven kinds of malformed file). Files are written under /verif/.scratch and removed.",
+   ref="3/C07"),
+ "C12": dict(cat="exploration", engine="E1",
+   technique="exhaustive enumeration of (device row x memory x {capacity-1, capacity, capacity+1} x way of reaching it) and of the shipped part-definition files' declared figures",
+   text="Every row of the device table and 'no device' x flash/EEPROM/RAM x one below, at and one above capacity x every way of getting there (.org+item, data blocks, a two-word instruction ending at the limit, .byte n, interleaved segments): Ok, Ok, Err, with ram_filling = data extent and the reported sizes = the row. Every includes/*def.inc is read by the harness's own reader and its four #pragma AVRPART MEMORY figures are compared with what the tool reports/enforces for that device. Unknown and second .device must fail.",
+   note="Trusted: the harness's reader of #pragma lines; the device table is the specification for rows without a part file (no frozen copy, so a legitimate correction of a row raises no alarm).",
+   ref="3/C12"),
+ "C13": dict(cat="exploration", engine="E1",
+   technique="exhaustive enumeration of device rows x instruction forms against a flag->forms map (devspec) and the no-device encoding",
+   text="Every row of the device table x every instruction form (each mnemonic, each addressing mode of ld/st/ldd/std/lpm/elpm) x operand variants: a form the row's own flags remove must fail; every other form must assemble to exactly the bytes produced with no device (lds/sts on Avr8l rows: the one-word reference encoding). Guards: every flag in the table is known to the devspec and removes at least one enumerated form.",
+   note="Trusted: the devspec map written from the flag documentation in DisabledOptions; isa reference for reduced-core lds/sts. NoEspm removes nothing (the tool has no espm mnemonic).",
+   ref="3/C13"),
  "C01": dict(cat="exploration", engine="E1",
    technique="bounded-exhaustive enumeration of the complete legal operand space (12.7 M cases) on the real assembler against an independent ISA encoder/decoder",
    text="Every legal operand tuple of every mnemonic (full core incl. the complete 2^16 lds/sts and 2^22 jmp/call address spaces; reduced-core lds/sts) is assembled by the real build_str and compared byte for byte with an independent encoder whose output an independent decoder maps back to what was written; all ordered pairs (thorough: triples) of mnemonic classes are also assembled adjacently. The space is finite and visited completely, so within 'canonical spelling' this decides the property rather than sampling it.",
